@@ -118,6 +118,10 @@ class ClassFacts:
                 return None
             return F
         self._pol = {}
+        if K == "Exploit":
+            # an Exploit always names a service (positional constructor parameter; the loader and
+            # the generator only build definitions with one - C18.exploit.*, C15.definitions)
+            self._pol["None is action.service"] = False
         for ev in d.summary.events:
             if ev.kind == "assert" and ev.depth == 0:
                 F = d.cn.formula(ev.data["test"])
